@@ -335,7 +335,7 @@ pub mod checks {
             }
         } else if name == "text_plain" {
             // names and indexes only ("plain paths"), depth 1..3: the queries for which a document-specific shortcut is conceivable
-            let mut segs: Vec<Segment> = ["a", "b", "k", "0", "1", "a/b", "a~b", "~0", "x"].iter().map(|n| Segment::Selector(Selector::Name(n.to_string()))).collect();
+            let mut segs: Vec<Segment> = ["a", "b", "k", "0", "1", "a/b", "a~b", "~0", "x", "a\\b", "'\\/'"].iter().map(|n| Segment::Selector(Selector::Name(n.to_string()))).collect();
             for i in -2..=2 { segs.push(Segment::Selector(Selector::Index(i))); }
             for a in &segs { out.push(JpQuery::new(vec![a.clone()]));
                 for b in &segs { out.push(JpQuery::new(vec![a.clone(), b.clone()]));
@@ -372,7 +372,7 @@ pub mod checks {
                                  // objects whose member names look like indexes or contain JSON-pointer metacharacters come first
                                  let mut v = vec![json!({"a": {"0": "zero", "1": [1, 2]}, "0": {"a": 1}}), json!({"a/b": 1, "a": {"b": 2}, "a~b": 3, "a~0b": 4, "~0": 5, "~": 6}),
                                                   json!({"a": [{"0": 1}, [10, 11]], "b": {"-1": 1, "a": {"k": [1, 2, 3]}}}), json!([{"0": "m"}, ["e0", "e1"]]), json!({"0": [0, 1], "1": {"0": {"1": 2}}}),
-                                                  json!({"a~1b": 7, "a/b": 8, "x": {"a~1b": 9}}), json!({"a": {"~0": 1, "~": 2, "k": {"~0": 3}}})];
+                                                  json!({"a~1b": 7, "a/b": 8, "x": {"a~1b": 9}}), json!({"a": {"~0": 1, "~": 2, "k": {"~0": 3}}}), json!({"a\\b": 1, "/": 2, "a": {"/": 3, "a\\b": [1, 2]}, "b": {"a": {"/": 4}}})];
                                  v.extend(docs(if tier == "thorough" { 200 } else { 30 }, seed)); v }
                              else { docs(if tier == "thorough" { 200 } else { 30 }, seed) };
         let qs = text_queries(name, tier, seed);
@@ -471,8 +471,7 @@ pub mod checks {
             Err(_) => Err("panic".to_string()),
         }
     }
-    pub fn group_purity(tier: &str, seed: u64, only: Option<(usize, usize)>) -> Report {
-        let mut rep = Report::new("purity");
+    fn purity_inputs(tier: &str, seed: u64) -> (Vec<String>, Vec<Value>, Vec<(usize, usize)>) {
         let mut rng = Rng(seed.wrapping_mul(0xD1B54A32D192ED03) | 1);
         let thorough = tier == "thorough";
         // query texts: a sample of every through-the-parser family, plus texts that differ only in ways a careless cache key would drop
@@ -485,15 +484,60 @@ pub mod checks {
         }
         for t in ["$.a", "$.A", "$.a ", "$ .a", "$['a']", "$[\"a\"]", "$.b", "$.ab", "$.a.b", "$.b.a", "$[0]", "$[00]", "$[1]", "$[-1]", "$[0,1]", "$[1,0]", "$[0:1]", "$[1:0]", "$[?@.a == 1]", "$[?@.a == 2]",
                   "$[?@.a==1]", "$[?@.b == 1]", "$[?@.a == 'a']", "$[?@.a == \"a\"]", "$[?match(@.a, 'a')]", "$[?match(@.a, 'b')]", "$[?search(@.a, 'a')]", "$[?match(@.b, 'a')]", "$..a", "$..b", "$.*", "$..*",
-                  "$[?length(@.a) == 1]", "$[?count(@.*) == 1]", "$[?count(@.*) == 2]", "$[?value(@.a) == 1]", "$[?@.a < 2]", "$[?@.a <= 2]", "$[?@.a > 2]", "$[?!@.a]", "$[?@.a]", "$[?@.a && @.b]", "$[?@.a || @.b]"] {
+                  "$[?length(@.a) == 1]", "$[?count(@.*) == 1]", "$[?count(@.*) == 2]", "$[?value(@.a) == 1]", "$[?@.a < 2]", "$[?@.a <= 2]", "$[?@.a > 2]", "$[?!@.a]", "$[?@.a]", "$[?@.a && @.b]", "$[?@.a || @.b]",
+                  "$[?match(@, 'a')]", "$[?search(@, 'a')]", "$[?match(@, 'ab')]", "$[?search(@, 'ab')]", "$[?search(@.a, 'b')]", "$[?match(@.a, 'a.')]", "$[?search(@.a, 'a.')]", "$[?match(@.a, '.a')]",
+                  "$['a b']", "$['ab']", "$['a']['b']", "$['a'][' b']", "$[?@.t == 'x y']", "$[?@.t == 'xy']", "$[?@.t == 'x  y']", "$['a\\\\b']", "$['\\/']", "$['a\\/b']", "$['a/b']",
+                  "$[1:3]", "$[::0]", "$[::-1]", "$[0:0]", "$[5:1]", "$[::2]", "$[?@[::0]]", "$[?@[1:3]]", "$..[::0]", "$..[1:3]", "$..a", "$..*", "$..[0]", "$..[?@.a]", "$..k[1]", "$..b[0]"] {
             texts.push(t.to_string());
         }
-        let ds: Vec<Value> = docs(if thorough { 60 } else { 12 }, seed);
-        let nd = std::cmp::min(ds.len(), if thorough { 120 } else { 48 });
-        let ds = &ds[..nd];
-        // pairs in a fixed order
+        let mut ds: Vec<Value> = docs(if thorough { 60 } else { 12 }, seed);
+        ds.truncate(if thorough { 120 } else { 48 });
+        // documents on which look-alike queries differ, and shapes that would drive per-thread or global scratch state to its limits
+        ds.push(json!([{"a": "ab"}, {"a": "ba"}, {"a": "a"}, {"a": "b"}, {"a": "xay"}, {"a": 1}, {"b": "a"}]));
+        ds.push(json!(["ab", "ba", "a", "b", "xay", "", "aa"]));
+        ds.push(json!({"a b": 1, "ab": 2, "a": {"b": 3, " b": 4}, "A": 5, "a\\b": 6, "/": 7, "a/b": 8}));
+        ds.push(json!([{"t": "x y"}, {"t": "xy"}, {"t": "x  y"}]));
+        ds.push(deep_array(150));
+        ds.push({ let mut v = json!({"a": 1, "k": [1, 2, 3]}); for i in 0..300 { v = if i % 2 == 0 { json!({"a": v, "b": [i]}) } else { json!([v, {"a": i}]) }; } v });
+        ds.push(json!([0, 1, 2, 3, 4, 5, 6, 7, 8, 9]));
         let mut pairs: Vec<(usize, usize)> = vec![];
-        for ti in 0..texts.len() { for di in 0..ds.len() { if thorough || (ti + di) % 3 == 0 { pairs.push((ti, di)); } } }
+        for ti in 0..texts.len() { for di in 0..ds.len() { if thorough || (ti + di) % 3 == 0 || di >= ds.len() - 7 && ti >= texts.len() - 90 { pairs.push((ti, di)); } } }
+        (texts, ds, pairs)
+    }
+    /// one process = one history: evaluates every pair in the order `order` (0 forward, 1 backward, 2 document-major, 3 shuffled) starting from a
+    /// fresh process state and reports a digest of each result BY PAIR INDEX; the driver compares the digests of processes with different orders
+    pub fn group_purity_x(tier: &str, seed: u64, only: Option<(usize, usize)>) -> Report {
+        let mut rep = Report::new("purity_x");
+        let (texts, ds, pairs) = purity_inputs(tier, seed);
+        let (order, show) = only.unwrap_or((0, usize::MAX));
+        let mut idx: Vec<usize> = (0..pairs.len()).collect();
+        match order % 4 {
+            1 => idx.reverse(),
+            2 => idx.sort_by_key(|&k| (pairs[k].1, pairs[k].0)),
+            3 => { let mut rng = Rng(seed.wrapping_mul(0x9E3779B97F4A7C15) | 1); for i in (1..idx.len()).rev() { let j = rng.below(i + 1); idx.swap(i, j); } }
+            _ => {}
+        }
+        let mut dig: Vec<u64> = vec![0; pairs.len()];
+        for &k in &idx {
+            let (ti, di) = pairs[k];
+            rep.evaluations += 1;
+            let r: Result<Vec<String>, String> = run_text(&texts[ti], &ds[di]).map(|v| v.into_iter().map(|x| x.1).collect());
+            let mut h: u64 = 0xcbf29ce484222325;
+            for b in format!("{:?}", r).bytes() { h ^= b as u64; h = h.wrapping_mul(0x100000001b3); }
+            dig[k] = h;
+            if k == show { rep.samples.push(json!({"pair": k, "text": texts[ti], "doc": ds[di], "result": format!("{:?}", r), "order": order})); }
+        }
+        rep.nontrivial = pairs.len() as u64;
+        rep.samples.push(json!({"digests": dig}));
+        rep
+    }
+    pub fn group_purity(tier: &str, seed: u64, only: Option<(usize, usize)>) -> Report {
+        let mut rep = Report::new("purity");
+        let mut rng = Rng(seed.wrapping_mul(0xD1B54A32D192ED03) | 1);
+        let thorough = tier == "thorough";
+        let (texts, ds, mut pairs) = purity_inputs(tier, seed);
+        let ds = &ds[..];
+        // pairs in a fixed order
         if let Some(o) = only { pairs.retain(|p| *p == o); }
         // pass 1: first evaluation of every pair, in order
         let first: Vec<Res> = pairs.iter().map(|(ti, di)| { rep.evaluations += 1; run_text(&texts[*ti], &ds[*di]) }).collect();
